@@ -23,6 +23,16 @@ def Wrapper.setDecorationNamed (wr : Wrapper) (reg : Registry) (n : Bytes) : Wra
   let d := reg.named n
   ({ wr with decor := d }, if d = emptyDecoration then some .noDecoration else none)
 
+/-- the wrapper `auto.Wrap` builds for a resolved format (`X.Wrap(t)`, plus `SetDecorationNamed`
+for texttable) -/
+def Format.wrapper (f : Format) (core : Nat) : Wrapper :=
+  match f with
+  | .csv => { kind := .csv, core := core }
+  | .html => { kind := .html, core := core }
+  | .markdown => { kind := .markdown, core := core }
+  | .json => { kind := .json, core := core }
+  | .text d => { kind := .text, core := core, decor := d }
+
 structure Ext where
   dw : Measure
   js : JsonStr
